@@ -251,7 +251,9 @@ func (this *Dataset) BatchInsert(ctx context.Context, items []*pb.BatchItem) (ma
 	var checkedItems []*pb.BatchItem
 	for _, item := range items {
 		value := math.Vector(item.GetValue())
-		if err := this.checkDimension(&value); err != nil {
+		if _, err := uuid.FromBytes(item.GetId()); err != nil {
+			errors[uuid.Nil] = err
+		} else if err := this.checkDimension(&value); err != nil {
 			errors[uuid.FromBytesOrNil(item.GetId())] = err
 		} else if err := index.Metadata(item.GetMetadata()).Validate(); err != nil {
 			errors[uuid.FromBytesOrNil(item.GetId())] = err
@@ -296,7 +298,9 @@ func (this *Dataset) BatchUpdate(ctx context.Context, items []*pb.BatchItem) (ma
 	var checkedItems []*pb.BatchItem
 	for _, item := range items {
 		value := math.Vector(item.GetValue())
-		if err := this.checkDimension(&value); err != nil {
+		if _, err := uuid.FromBytes(item.GetId()); err != nil {
+			errors[uuid.Nil] = err
+		} else if err := this.checkDimension(&value); err != nil {
 			errors[uuid.FromBytesOrNil(item.GetId())] = err
 		} else if err := index.Metadata(item.GetMetadata()).Validate(); err != nil {
 			errors[uuid.FromBytesOrNil(item.GetId())] = err
@@ -335,6 +339,12 @@ func (this *Dataset) PartitionBatchUpdate(ctx context.Context, partitionId uuid.
 func (this *Dataset) BatchRemove(ctx context.Context, items []*pb.BatchItem) (map[uuid.UUID]error, error) {
 	if len(items) > maxBatchRequestSize {
 		return nil, BatchRequestTooLargerErr
+	}
+
+	for _, item := range items {
+		if _, err := uuid.FromBytes(item.GetId()); err != nil {
+			return nil, err
+		}
 	}
 
 	return this.partitionsBatchRequest(
